@@ -11,9 +11,14 @@ C08 — model of the incoming-IQ dispatch pipeline of a qxmpp client.
                                               handleStanza(el) when unencrypted; first `true` wins
     4. QXmppOutgoingClient::handleStanza      (805-830) error reply for get/set, iqReceived for result/error,
                                               `false` (→ Rejected → stream error + disconnect) for any other type
-  QXmppClient::injectIq                       (src/client/QXmppClient.cpp:905-927): the entry used for IQs that
-                                              arrived end-to-end encrypted: step 3 with new-style handlers only,
-                                              then error reply for get/set, nothing otherwise.
+  QXmppClient::injectIq                       (src/client/QXmppClient.cpp): the entry used for IQs that arrived
+                                              end-to-end encrypted (an e2ee extension claims the encrypted stanza in
+                                              step 3, decrypts it and calls injectIq): step 3 again with new-style
+                                              handlers only, then an error reply for get/set sent with
+                                              QXmppClient::reply(iq, e2eeMetadata) — i.e. encrypted —, nothing otherwise.
+  QXmppOutgoingClient::handlePacketReceived   while a negotiation manager is the listener (STARTTLS, SASL, SASL2, bind,
+                                              stream-management enable/resume) or TLS is required and not yet active,
+                                              an <iq/> never reaches steps 1-4: "Unexpected element received", stream closed.
 
 An incoming IQ is abstracted to `Stanza`: type class × sender class × id class × the list of its child
 elements, each reduced to (tag, namespace, one flag) over finite alphabets (`other` = anything else).
@@ -30,15 +35,18 @@ inductive IqType | get | set | result | error | absent | garbage
 /-- sender class. Own account is `me@example.org/home` in the harness.
 `none` = no `from` (server speaking for the account), `domain` = `example.org`, `ownBare` = `me@example.org`,
 `ownFull` = the client's own full JID, `ownOther` = another resource of the own account,
-`other` = the full JID of a different account (also the addressee of the outstanding request, see `IdC.table`). -/
-inductive From | none | domain | ownBare | ownFull | ownOther | other
+`other` = exactly the full JID of the foreign entity the client has state with (addressee of the outstanding
+request `IdC.table`, peer of the incoming transfer job, JID the joined MUC room is registered under);
+`stranger` = any other foreign JID (including look-alikes of the own JID). -/
+inductive From | none | domain | ownBare | ownFull | ownOther | other | stranger
   deriving DecidableEq, Repr
 
 /-- id class: `absent`; `fresh` = an id nobody waits for; `table` = the id of a request currently in the
 OutgoingIqManager table (sent to `From.other`); `reg` = an id the registration manager recorded
 (`registrationIqId` / `changePasswordIqId` / `deleteAccountIqId`); `bm` = the id of the bookmark manager's
-outstanding `setBookmarks` request (`pendingId`). -/
-inductive IdC | absent | fresh | table | reg | bm
+outstanding `setBookmarks` request (`pendingId`); `muc` = an id in the joined room's `permissionsQueue`
+(`QXmppMucRoom::requestPermissions`). -/
+inductive IdC | absent | fresh | table | reg | bm | muc
   deriving DecidableEq, Repr
 
 inductive Tag
@@ -51,15 +59,32 @@ inductive Ns
   | upload | register | ibb | bytestreams | si | mucAdmin | mucOwner | other
   deriving DecidableEq, Repr
 
-/-- One child element of the `<iq/>`.  `flag` is the single payload detail some handler branches on:
-* `chat@archive`  : the `with` attribute is non-empty            (QXmppArchiveChatIq::isArchiveChatIq)
-* `query@private` : first grandchild is `storage@storage:bookmarks` (QXmppPrivateStorageIq::isPrivateStorageIq)
-* `query@disco#*` : `node` is non-empty and does not start with the client's capabilities node
+/-- One child element of the `<iq/>`.  `flag` / `flag2` are the payload details some handler branches on:
+* `chat@archive`  : flag = the `with` attribute is non-empty       (QXmppArchiveChatIq::isArchiveChatIq)
+* `query@private` : flag = first grandchild is `storage@storage:bookmarks` (QXmppPrivateStorageIq::isPrivateStorageIq)
+* `query@disco#*` : flag = `node` is non-empty and does not start with the client's capabilities node
+* `query@rpc`     : flag = `methodCall/methodName` splits into exactly two parts at '.'
+* `query@muc#owner`: flag = contains a non-null data form (`<x xmlns='jabber:x:data' type=…/>`)
+* `open|data|close@ibb`: flag = `sid` is the sid of the incoming transfer job; flag2 = `block-size` ≤ 4096 (open) /
+                    `seq` is the next expected sequence number (data)
+* `si@si`         : flag = profile is SI file transfer; flag2 = offers a stream method the manager supports
 false everywhere else. -/
 structure Kid where
   tag : Tag
   ns : Ns
   flag : Bool := false
+  flag2 : Bool := false
+  deriving DecidableEq, Repr
+
+/-- how the stanza reached the client: `stream` = handlePacketReceived; `inject` = QXmppClient::injectIq called
+directly with e2ee metadata; `e2ee` = arrived on the stream encrypted, claimed and decrypted by the installed
+e2ee extension (first in the extension list), which calls injectIq -/
+inductive Entry | stream | inject | e2ee
+  deriving DecidableEq, Repr
+
+/-- `session` = the client itself is the stream's listener (session established); `negotiating` = a negotiation
+manager is (STARTTLS / SASL / SASL2 / resource binding / stream management request) or TLS is required and not active -/
+inductive Phase | session | negotiating
   deriving DecidableEq, Repr
 
 structure Stanza where
@@ -67,11 +92,24 @@ structure Stanza where
   frm : From
   id : IdC
   kids : List Kid
-  /-- arrived through `QXmppClient::injectIq` with e2ee metadata (decrypted IQ) instead of the stream -/
-  enc : Bool := false
+  entry : Entry := .stream
+  phase : Phase := .session
   deriving DecidableEq, Repr
 
-inductive RKind | result | error
+/-- the handlers see a decrypted IQ (e2ee metadata present): old-style handlers are skipped -/
+def Stanza.dec (s : Stanza) : Bool := s.entry != .stream
+
+/-- `type` attribute of the `<error/>` element -/
+inductive EType | cancel | modify | auth | wait
+  deriving DecidableEq, Repr
+
+/-- defined condition (urn:ietf:params:xml:ns:xmpp-stanzas) -/
+inductive ECond
+  | featureNotImplemented | serviceUnavailable | badRequest | itemNotFound | forbidden | unexpectedRequest
+  | notAcceptable | resourceConstraint
+  deriving DecidableEq, Repr
+
+inductive RKind | result | error (t : EType) (c : ECond)
   deriving DecidableEq, Repr
 
 /-- `to` of a sent reply relative to the request: `sender` = equals the request's `from`
@@ -85,6 +123,8 @@ structure Rep where
   to : ToC
   /-- carries the request's id (absent when the request had none) -/
   idSame : Bool := true
+  /-- sent through `QXmppClient::reply(iq, e2eeMetadata)` with metadata present, i.e. encrypted by the e2ee extension -/
+  e2ee : Bool := false
   deriving DecidableEq, Repr
 
 /-- what one `handleStanza` call did -/
@@ -96,7 +136,8 @@ structure Beh where
 def Beh.pass : Beh := ⟨false, []⟩
 def Beh.swallow : Beh := ⟨true, []⟩
 /-- reply addressed with `setTo(request.from)` -/
-def Beh.reply (k : RKind) : Beh := ⟨true, [⟨k, .sender, true⟩]⟩
+def Beh.reply (k : RKind) : Beh := ⟨true, [⟨k, .sender, true, false⟩]⟩
+def Beh.err (t : EType) (c : ECond) : Beh := .reply (.error t c)
 def isReq : IqType → Bool
   | .get | .set => true
   | _ => false
@@ -121,6 +162,11 @@ def headFlag (s : Stanza) : Bool :=
   | some k => k.flag
   | none => false
 
+def headFlag2 (s : Stanza) : Bool :=
+  match s.kids.head? with
+  | some k => k.flag2
+  | none => false
+
 /-- `QDomElement::firstChildElement(name)`: first child with that tag, whatever its namespace -/
 def named (s : Stanza) (t : Tag) : Option Kid := s.kids.find? (fun k => k.tag == t)
 
@@ -128,6 +174,16 @@ def named (s : Stanza) (t : Tag) : Option Kid := s.kids.find? (fun k => k.tag ==
 def namedHasNs (s : Stanza) (t : Tag) (n : Ns) : Bool :=
   match named s t with
   | some k => k.ns == n
+  | none => false
+
+/-- the flags of the first child with that tag (false when there is none) -/
+def namedFlag (s : Stanza) (t : Tag) : Bool :=
+  match named s t with
+  | some k => k.flag
+  | none => false
+def namedFlag2 (s : Stanza) (t : Tag) : Bool :=
+  match named s t with
+  | some k => k.flag2
   | none => false
 
 /-- `QXmpp::Private::firstChildElement(el, tag, ns)`: first child with that tag AND namespace -/
@@ -164,14 +220,14 @@ def versionBeh (s : Stanza) : Beh :=
 
 /-- QXmppEntityTimeManager.cpp:76 -/
 def timeBeh (s : Stanza) : Beh :=
-  if isReq s.type && headIs s .time .time then .reply (if s.type = .get then .result else .error)
+  if isReq s.type && headIs s .time .time then .reply (if s.type = .get then .result else .error .cancel .badRequest)
   else if headIs s .time .time then .swallow
   else .pass
 
 /-- QXmppDiscoveryManager.cpp:315 -/
 def discoBeh (s : Stanza) : Beh :=
   let isDisco := headIs s .query .discoInfo || headIs s .query .discoItems
-  if isReq s.type && isDisco then .reply (if headFlag s then .error else .result)
+  if isReq s.type && isDisco then .reply (if headFlag s then .error .cancel .itemNotFound else .result)
   else if isDisco then
     match parsedType s.type with
     | .result | .error => .swallow
@@ -190,7 +246,11 @@ def archiveBeh (s : Stanza) : Beh :=
 /-- QXmppBlockingManager.cpp:367 (new-style handler). `sub` = the manager holds a blocklist. -/
 def blockingBeh (sub : Bool) (s : Stanza) : Beh :=
   if isReq s.type && (headIs s .block .blocking || headIs s .unblock .blocking) then
-    .reply (if s.type = .set ∧ (s.frm = .none ∨ s.frm = .ownBare) ∧ sub = true then .result else .error)
+    -- checkIqValidity: type, then sender, then subscription
+    .reply (if s.type ≠ .set then .error .cancel .featureNotImplemented
+            else if ¬ (s.frm = .none ∨ s.frm = .ownBare) then .error .cancel .forbidden
+            else if sub = false then .error .wait .unexpectedRequest
+            else .result)
   else .pass
 
 /-- QXmppBookmarkManager.cpp `handleStanza` — get/set return false first (repo commit 88fc5c1) -/
@@ -206,11 +266,14 @@ def mamBeh (s : Stanza) : Beh :=
   if s.type = .get ∨ s.type = .set then .pass
   else if namedHasNs s .fin .mam then .swallow else .pass
 
-/-- QXmppMucManager.cpp:87. `room` = a joined room has the sender's JID and (admin) waits for this id /
-(owner) the form is non-null; with no rooms the manager never returns true. -/
+/-- QXmppMucManager.cpp `handleStanza`. `room` = a room is registered under the JID `From.other` and its
+`permissionsQueue` holds `IdC.muc`; with no rooms the manager never returns true. -/
 def mucBeh (room : Bool) (s : Stanza) : Beh :=
-  if (namedHasNs s .query .mucAdmin || namedHasNs s .query .mucOwner) && room && s.type = .result
-  then .swallow else .pass
+  if namedHasNs s .query .mucAdmin then
+    (if room ∧ s.frm = .other ∧ parsedType s.type = .result ∧ s.id = .muc then .swallow else .pass)
+  else if namedHasNs s .query .mucOwner then
+    (if room ∧ s.frm = .other ∧ parsedType s.type = .result ∧ namedFlag s .query = true then .swallow else .pass)
+  else .pass
 
 /-- QXmppRegistrationManager.cpp `handleStanza` (registerOnConnect off; the stream-features branch is not an IQ):
 get/set return false first (repo commit e597fe7) -/
@@ -225,23 +288,56 @@ def rpcBeh (s : Stanza) : Beh :=
   let q := namedHasNs s .query .rpc
   -- invokeInterfaceMethod: method name not of the form a.b → bad-request error IQ (repo commit af7bef7);
   -- unknown interface → item-not-found error IQ
-  if q && s.type = .set then .reply .error
+  if q && s.type = .set then
+    (if namedFlag s .query then .err .cancel .itemNotFound else .err .modify .badRequest)
   else if q && s.type = .result then .swallow
   else if s.type = .error && (named s .error).isSome && q then .swallow
   else .pass
 
-/-- QXmppTransferManager.cpp `handleStanza` with no transfer job and nobody connected to `fileReceived`.
-Repo commit 1833c1a: a result/error carrying an IBB element and a `get` carrying bytestreams / SI return false. -/
-def transferBeh (s : Stanza) : Beh :=
+/-- who is connected to `QXmppTransferManager::fileReceived`: nobody, a slot that accepts the offered job at once
+(`job->accept(device)`), a slot that declines it (`job->abort()`) -/
+inductive Lsn | none | accept | decline
+  deriving DecidableEq, Repr
+
+/-- the incoming in-band transfer job from `From.other`: none, accepted and waiting for `<open/>` (StartState),
+opened (TransferState, expecting sequence number 0) -/
+inductive Job | none | start | opened
+  deriving DecidableEq, Repr
+
+/-- streamInitiationSetReceived: which single reply an SI offer gets -/
+def siSetKind (l : Lsn) (s : Stanza) : RKind :=
+  if !namedFlag s .si then .error .cancel .badRequest          -- profile is not file transfer
+  else match l with
+    | .none => .error .cancel .forbidden                       -- nobody listens to fileReceived
+    | .accept => if namedFlag2 s .si then .result else .error .cancel .badRequest
+    | .decline => if namedFlag2 s .si then .error .cancel .forbidden else .error .cancel .badRequest
+
+/-- ibbCloseIqReceived / ibbDataIqReceived / ibbOpenIqReceived: which single reply an IBB element gets.
+`mine` = `getIncomingJobBySid(iq.from(), iq.sid())` finds the job. -/
+def ibbCloseKind (j : Job) (s : Stanza) : RKind :=
+  if j ≠ .none ∧ s.frm = .other ∧ headFlag s = true then .result else .error .cancel .itemNotFound
+def ibbDataKind (j : Job) (s : Stanza) : RKind :=
+  if j = .opened ∧ s.frm = .other ∧ headFlag s = true then
+    (if headFlag2 s then .result else .error .cancel .unexpectedRequest)
+  else .error .cancel .itemNotFound
+def ibbOpenKind (j : Job) (s : Stanza) : RKind :=
+  if j ≠ .none ∧ s.frm = .other ∧ headFlag s = true then
+    (if headFlag2 s then .result else .error .modify .resourceConstraint)
+  else .error .cancel .itemNotFound
+
+/-- QXmppTransferManager.cpp `handleStanza` (+ ibb*IqReceived, byteStreamIqReceived, streamInitiationIqReceived).
+Repo commit 1833c1a: a result/error carrying an IBB element and a `get` carrying bytestreams / SI return false.
+No outgoing job, no SOCKS5 job. -/
+def transferBeh (l : Lsn) (j : Job) (s : Stanza) : Beh :=
   if isResp s.type && (headIs s .close .ibb || headIs s .data .ibb || headIs s .openT .ibb) then .pass
   else if s.type = .get && (headIs s .query .bytestreams || namedHasNs s .si .si) then .pass
-  else if headIs s .close .ibb then .reply .error
-  else if headIs s .data .ibb then .reply .error
-  else if headIs s .openT .ibb then .reply .error
+  else if headIs s .close .ibb then .reply (ibbCloseKind j s)
+  else if headIs s .data .ibb then .reply (ibbDataKind j s)
+  else if headIs s .openT .ibb then .reply (ibbOpenKind j s)
   else if headIs s .query .bytestreams then
-    (if parsedType s.type = .set then .reply .error else .swallow)
+    (if parsedType s.type = .set then .err .auth .notAcceptable else .swallow)
   else if namedHasNs s .si .si then
-    (if parsedType s.type = .set then .reply .error else .swallow)
+    (if parsedType s.type = .set then .reply (siSetKind l s) else .swallow)
   else .pass
 
 /-- QXmppUploadRequestManager.cpp `handleStanza` — get/set return false first (repo commit 7916dee) -/
@@ -257,7 +353,8 @@ def passBeh (_ : Stanza) : Beh := .pass
 /-- identity of a row (= a client extension class) -/
 inductive Mgr
   | archive | blocking | blockingSub | bookmark | carbon | carbonV2 | discovery | entityTime | mam
-  | muc | mucRoom | pubsub | registration | roster | rpc | transfer | uploadRequest | vcard | version
+  | muc | mucRoom | pubsub | registration | roster | rpc | uploadRequest | vcard | version
+  | transfer | transferAccept | transferDecline | transferJob | transferJobOpen
   -- no handleStanza override (QXmppClientExtension::handleStanza returns false)
   | accountMigration | attention | callInvite | externalService | httpUpload | jmi | messageReceipt
   | mix | moved | userLocation | userTune | atm | fileSharing
@@ -270,7 +367,7 @@ structure Row where
   beh : Stanza → Beh
 
 def Row.run (r : Row) (s : Stanza) : Beh :=
-  if s.enc && !r.newStyle then .pass else r.beh s
+  if s.dec && !r.newStyle then .pass else r.beh s
 
 def rowOf : Mgr → Row
   | .archive => ⟨.archive, false, archiveBeh⟩
@@ -288,7 +385,11 @@ def rowOf : Mgr → Row
   | .registration => ⟨.registration, false, registrationBeh⟩
   | .roster => ⟨.roster, false, rosterBeh⟩
   | .rpc => ⟨.rpc, false, rpcBeh⟩
-  | .transfer => ⟨.transfer, false, transferBeh⟩
+  | .transfer => ⟨.transfer, false, transferBeh .none .none⟩
+  | .transferAccept => ⟨.transferAccept, false, transferBeh .accept .none⟩
+  | .transferDecline => ⟨.transferDecline, false, transferBeh .decline .none⟩
+  | .transferJob => ⟨.transferJob, false, transferBeh .accept .start⟩
+  | .transferJobOpen => ⟨.transferJobOpen, false, transferBeh .accept .opened⟩
   | .uploadRequest => ⟨.uploadRequest, false, uploadRequestBeh⟩
   | .vcard => ⟨.vcard, false, vcardBeh⟩
   | .version => ⟨.version, false, versionBeh⟩
@@ -327,6 +428,7 @@ inductive Decider
   | ext (m : Mgr)    -- an extension returned true
   | fallback         -- step 4 / injectIq's own answer
   | rejected         -- step 4 returned false: "Unexpected element received", stream closed
+  | negotiation      -- a negotiation manager was the listener: "Unexpected element received", stream closed
   deriving DecidableEq, Repr
 
 structure Outcome where
@@ -354,18 +456,22 @@ def chain : List Row → Stanza → ChainRes
       let c := chain rs s
       ⟨c.handledBy, b.sent ++ c.sent⟩
 
-def fallbackReply : Rep := ⟨.error, .sender, true⟩
+/-- feature-not-implemented / cancel, `setTo(from)`, `setId(id)`; sent with `reply(iq, e2eeMetadata)` by injectIq -/
+def fallbackReply (e : Entry) : Rep := ⟨.error .cancel .featureNotImplemented, .sender, true, e != .stream⟩
 
 def dispatch (exts : List Row) (s : Stanza) : Outcome :=
-  if !s.enc && tableConsumes s then ⟨.table, [], false⟩
+  -- everything that arrives on the stream (plain or encrypted) before the session is established
+  if s.entry != .inject && s.phase = .negotiating then ⟨.negotiation, [], true⟩
+  -- the (outer) stanza passes the request table before any extension, also before the e2ee extension
+  else if s.entry != .inject && tableConsumes s then ⟨.table, [], false⟩
   else
     let c := chain exts s
     match c.handledBy with
     | some m => ⟨.ext m, c.sent, false⟩
     | none =>
-      if isReq s.type then ⟨.fallback, c.sent ++ [fallbackReply], false⟩
+      if isReq s.type then ⟨.fallback, c.sent ++ [fallbackReply s.entry], false⟩
       else if isResp s.type then ⟨.fallback, c.sent, false⟩
-      else if s.enc then ⟨.fallback, c.sent, false⟩
+      else if s.dec then ⟨.fallback, c.sent, false⟩
       else ⟨.rejected, c.sent, true⟩
 
 def replies (o : Outcome) : Nat := o.sent.length
@@ -375,7 +481,7 @@ def replies (o : Outcome) : Nat := o.sent.length
 /-- a reply with no `to` reaches the requester only when the request came from the account's own server -/
 def ToC.okFor (f : From) : ToC → Bool
   | .sender => true
-  | .none => f = .none || f = .ownBare || f = .domain
+  | .none => f == .none || f == .ownBare || f == .domain
 
 /-- exactly one reply, carrying the request's id and addressed so that it reaches a requester of class `f` -/
 def okOne (f : From) : List Rep → Bool
@@ -404,7 +510,8 @@ def Row.good (r : Row) (s : Stanza) : Bool := (r.run s).goodFor s
 
 def allMgrs : List Mgr :=
   [.archive, .blocking, .blockingSub, .bookmark, .carbon, .carbonV2, .discovery, .entityTime, .mam,
-   .muc, .mucRoom, .pubsub, .registration, .roster, .rpc, .transfer, .uploadRequest, .vcard, .version,
+   .muc, .mucRoom, .pubsub, .registration, .roster, .rpc, .transfer, .transferAccept, .transferDecline,
+   .transferJob, .transferJobOpen, .uploadRequest, .vcard, .version,
    .accountMigration, .attention, .callInvite, .externalService, .httpUpload, .jmi, .messageReceipt,
    .mix, .moved, .userLocation, .userTune, .atm, .fileSharing]
 
